@@ -290,7 +290,7 @@ class IOOpsMixin:
     def op_io_write_energy(self, client, i, op):
         from cij.io.traditional.qha_input import write_energy
         d = op["data"]
-        path = os.path.join(self._cwd_of(client), op["path"])
+        path = os.path.join(self._home_of(client), op["path"])
         relp = os.path.relpath(path, self.root)
         prev = self.disk.get(relp)
         if prev is not None and prev.get("kind") == "energy" and prev.get("data") is not None:
@@ -301,7 +301,7 @@ class IOOpsMixin:
         kw = {}
         if op.get("comment") is not None:
             kw["comment"] = op["comment"]
-        write_energy(path if op.get("abs", True) else op["path"], self._make_qha_input(d), **kw)
+        write_energy(path if op.get("abs", True) else os.path.relpath(path, self._cwd_of(client)), self._make_qha_input(d), **kw)
         self.disk[relp] = {"state": "ok", "writer": client, "kind": "energy", "data": d}
         return {}
 
@@ -312,7 +312,7 @@ class IOOpsMixin:
             path = os.path.join(self.root, w["datadir"], w["settings"]["qha"]["input"])
             truth, prec = w["phonon"], None
         else:
-            path = os.path.join(self._cwd_of(client), op["path"])
+            path = os.path.join(self._home_of(client), op["path"])
             m = self.disk.get(os.path.relpath(path, self.root))
             truth, prec = (m["data"] if m and m.get("state") == "ok" and m.get("kind") == "energy" else None), "written"
         data = read_energy(path if op.get("abs", True) else os.path.relpath(path, self._cwd_of(client)))
@@ -348,7 +348,7 @@ class IOOpsMixin:
         if len(matches) != 1:
             self.probe("extract_var_ambiguous" if matches else "extract_var_missing")
             return None
-        cwdrel = self.sc["worlds"][client]["cwd"]
+        cwdrel = self.cwd_rel[client]
         m = self.disk.get(cwdrel + "/" + matches[0])
         if m is not None and m.get("state") != "ok":
             self.probe("extract_skipped_indeterminate_file")
@@ -437,8 +437,8 @@ class IOOpsMixin:
 
     def op_cli_geotherm(self, client, i, op):
         from cij.cli.cij import main
-        gpath = os.path.join(self._cwd_of(client), op["geotherm"])
-        args = ["extract-geotherm", "-g", gpath if op.get("abs", True) else op["geotherm"], "-v", ",".join(op["variables"])]
+        gpath = os.path.join(self._home_of(client), op["geotherm"])
+        args = ["extract-geotherm", "-g", gpath if op.get("abs", True) else os.path.relpath(gpath, self._cwd_of(client)), "-v", ",".join(op["variables"])]
         if op.get("hide_header"):
             args += ["-h"]
         truths = {v: self._table_truth(client, v) for v in op["variables"]} if "O-extract" in self.oracles else {}
